@@ -1,5 +1,5 @@
 (* Properties/C13.v -- an exception at any point leaves the render state consistent *)
-From MakoV Require Import Lib.Str Model.Core Proofs.CoreProofs.
+From MakoV Require Import Lib.Str Model.Core Proofs.CoreProofs Proofs.CoreMore.
 
 (* the consistency theorem is stated for every outcome; instantiated for exceptions: wherever it is
    raised -- inside nested defs, buffered or filtered sections, captures, calls with content, bodies
@@ -28,6 +28,13 @@ Theorem C13_abandoned_buffer_discarded : forall defs f w me d df s,
   bufs (fst (fst (exec defs (S f) w me (NCall d) s))) = bufs s.
 Proof. exact abandoned_buffer_discarded. Qed.
 Print Assumptions C13_abandoned_buffer_discarded.
+
+(* text written directly before the exception stays where it was written *)
+Theorem C13_direct_text_stays : forall defs f me t b r cs,
+  run_nodes (exec defs (S f)) (S (length r)) me [NText t; NRaise] {| bufs := b :: r; callers := cs; nextcaller := None |} =
+    ({| bufs := (b ++ t) :: r; callers := cs; nextcaller := None |}, ORaised, []).
+Proof. exact direct_text_stays. Qed.
+Print Assumptions C13_direct_text_stays.
 
 (* non-vacuity: an exception inside the body of a call with content, inside a filtered def, inside a
    capture; handled two levels up; direct text stays, buffered text goes *)
